@@ -440,8 +440,31 @@ impl<'tcx> Ex<'tcx> {
                     f.push(("int", v));
                 } else if let Const::Unevaluated(u, _) = c.const_ {
                     f.push(("uneval", J::s(np(|| self.tcx.def_path_str_with_args(u.def, u.args)))));
-                    if u.promoted.is_some() {
+                    if let Some(pidx) = u.promoted {
                         f.push(("promoted", J::Bool(true)));
+                        // what the promoted constant is built from (e.g. `&ErrorKind::InsufficientSize`)
+                        if u.def.is_local() {
+                            let pm = self.tcx.promoted_mir(u.def);
+                            if let Some(pb) = pm.get(pidx) {
+                                for bd in pb.basic_blocks.iter() {
+                                    for st in &bd.statements {
+                                        if let StatementKind::Assign(b) = &st.kind {
+                                            if let Rvalue::Aggregate(k, ops) = &b.1 {
+                                                if let AggregateKind::Adt(did, v, _, _, _) = &**k {
+                                                    if ops.is_empty() {
+                                                        let adt = self.tcx.adt_def(*did);
+                                                        f.push(("promoted_agg", obj! {
+                                                            "adt": J::s(self.path(*did)),
+                                                            "vname": J::s(adt.variant(*v).name.to_string()),
+                                                        }));
+                                                    }
+                                                }
+                                            }
+                                        }
+                                    }
+                                }
+                            }
+                        }
                     }
                 } else {
                     let mut s = np(|| format!("{}", c.const_));
